@@ -1,5 +1,5 @@
 (* C07 - Consumer offsets are exact, isolated per consumer and partition, and durable. *)
-From IggyV Require Import Base.Tactics Base.ListX Model.Part Model.PartSpec Proofs.PartBasics Proofs.PartHistory Proofs.OffsetsHistory Proofs.PartCounts Proofs.CacheHistory Proofs.ReadExact Proofs.ReadPart Proofs.ReadHistory Proofs.ExpiryBasics Proofs.ExpiryHistory Proofs.DedupHistory Proofs.Refine.
+From IggyV Require Import Base.Tactics Base.ListX Model.Part Model.PartSpec Proofs.PartBasics Proofs.PartHistory Proofs.OffsetsHistory Proofs.PartCounts Proofs.CacheHistory Proofs.ReadExact Proofs.ReadPart Proofs.ReadHistory Proofs.ExpiryBasics Proofs.ExpiryHistory Proofs.DedupHistory Proofs.TsPolls Proofs.Refine.
 Open Scope N_scope.
 
 Definition C07_full : Prop := forall c t0 ops, model_check c t0 ops = 0.
@@ -55,7 +55,8 @@ Qed.
 (* PROVED - REFINEMENT (Proofs/Refine.v): the specification monitor accepts EVERY run of the model, i.e. for every operation
    list get returns exactly what the last store / auto-commit put there, stores above the current offset are refused, deletes and purges remove, next-polls resume after the stored offset.  This is C07_full under the guards the real code itself enforces or the model needs: segment size > 0, poll counts >= 1
    (System::poll_messages refuses count 0 before the partition is reached), offsets and log files below 2^32 (32-bit index
-   fields), send timestamps non-zero and never going backwards; by-timestamp polls are the one operation kind left out. *)
+   fields), send timestamps non-zero and never going backwards, restarts not before the last send.  Polls of every kind are
+   covered: by offset, by timestamp, first, last, next. *)
 Theorem C07_refinement : forall ops c t0, 0 < c_seg c -> times_ok 0 ops -> Forall poll_ok ops ->
   Forall bounds_ok (prun_states (c, part_new c t0) ops) -> model_check c t0 ops = 0.
 Proof. exact model_refines_spec. Qed.
